@@ -39,6 +39,9 @@ VARIANTS = {
     "V4": {"thicknessBounds": [0.1, 4.0]},
     "V5": {"M": 24, "pressRelErrTol": 0.05, "errTol": 1e-2},
     "V6": {"N": 7, "collisionMultiplier": 2.0},
+    "V7": {"maxIterations": 4},
+    "V8": {"maxIterations": 5, "pressRelErrTol": 0.01},
+    "V9": {"thicknessBounds": [0.1, 3.0], "M": 16},
 }
 SETTINGS = {
     "S0": {"mfp": 5000.0, "thickness": 10.0},
@@ -51,6 +54,7 @@ SETUP_CFG = {"phaseTracerTol": 1e-8}
 COLLISION = {"N": 7, "gamma": 0.5, "mix": -0.1}
 
 _REF_CACHE: dict = {}
+_REF_NEW: dict = {}
 _TRACE: dict = {"active": None}
 
 
@@ -175,23 +179,52 @@ class ManagerMachine(Machine):
     POSSIBLE_BIGRAMS = len(OPS) * (len(OPS) + 1)
 
     # ------------------------------------------------------------------ config
+    THEMES = ("history", "labelling", "offeq", "lowT", "bag", "mixed")
+
     @staticmethod
     def drawConfig(rng: random.Random, tier: str) -> dict:
-        kind = "bag" if rng.random() < 0.12 else "yukawa"
+        """swarm: every run has a theme that concentrates it on one region of the
+        (model, point, configuration, operation) space, so that a small batch still
+        reaches each outcome class and each kind of history several times"""
+        theme = rng.choice(ManagerMachine.THEMES)
+        kind = "bag" if theme == "bag" else "yukawa"
         pts = fixtures.POINTS[kind]
-        good = rng.sample(pts["good"], min(2, len(pts["good"])))
-        if kind == "bag":
-            good = pts["good"]
-        variants = ["V0"] + rng.sample([v for v in VARIANTS if v != "V0"], 2)
+        weights = {"setup": 1, "lte": 1, "solve": 3, "detonation": 1, "hydro": 1, "thermo": 1,
+                   "config": 1, "colldir": 0, "new_model": 1, "arm": 1}
+        pool = [v for v in VARIANTS if v != "V0"]
+        offEq = False
+        good = list(pts["good"])
+        if theme == "history":
+            weights.update(hydro=3, detonation=2, lte=2, thermo=2, config=1, arm=0)
+            variants = ["V0", rng.choice(["V1", "V5"])]
+            good = [t for t in good if t >= 6.5]
+        elif theme == "labelling":
+            variants = rng.sample(["V2", "V4", "V7", "V8", "V9"], 2) + ["V0"]
+            weights.update(config=3, hydro=0, thermo=0, detonation=0, arm=0)
+            good = [t for t in good if t >= 7.0]
+        elif theme == "offeq":
+            offEq = True
+            variants = ["V0", rng.choice(["V6", "V1"])]
+            weights.update(colldir=3, config=1, detonation=0, arm=1, hydro=1)
+            good = [t for t in good if t >= 7.0]
+        elif theme == "lowT":
+            good = [5.5, 5.8, 6.5]
+            variants = ["V0", "V1"]
+            weights.update(lte=3, hydro=2, detonation=1, config=0, arm=0)
+        elif theme == "bag":
+            variants = ["V0", "V1"]
+            weights.update(detonation=2, arm=1, colldir=0)
+        else:
+            variants = ["V0"] + rng.sample(pool, 2)
+            offEq = rng.random() < 0.3
+            weights.update(colldir=1 if offEq else 0, arm=2)
+        good = rng.sample(good, min(2, len(good)))
         settings = rng.sample(sorted(SETTINGS), 2)
-        weights = {"setup": rng.choice([1, 2]), "lte": rng.choice([0, 1]),
-                   "solve": rng.choice([2, 3]), "detonation": rng.choice([0, 0, 1]),
-                   "hydro": rng.choice([0, 1, 2]), "thermo": rng.choice([0, 1]),
-                   "config": rng.choice([0, 1, 2]), "colldir": rng.choice([0, 1]),
-                   "new_model": rng.choice([0, 1]), "arm": rng.choice([0, 0, 1, 2])}
-        return {"kind": kind, "good": good, "bad": pts["bad"], "variants": variants,
-                "settings": settings, "offEq": kind == "yukawa" and rng.random() < 0.4,
-                "weights": weights, "steps": rng.choice([3, 4, 5, 6, 8])}
+        return {"kind": kind, "theme": theme, "good": good, "bad": pts["bad"],
+                "variants": variants, "settings": settings, "offEq": offEq,
+                "firstVariant": rng.choice(variants),
+                "reuseSettingsObject": rng.random() < 0.5,
+                "weights": weights, "steps": rng.choice([4, 5, 6, 8])}
 
     @staticmethod
     def simplerConfigs(cfg: dict):
@@ -207,8 +240,11 @@ class ManagerMachine(Machine):
         self.kind = cfg["kind"]
         self.params = fixtures.MODEL_PARAMS[self.kind]
         self.classes = fixtures.modelClasses(WallGo)
-        self.mgr, self.model, self.ctl = self._freshManager(SETUP_CFG, "V0", None)
-        self.variant = "V0"
+        self.variant = cfg.get("firstVariant", "V0")
+        self.mgr, self.model, self.ctl = self._freshManager(SETUP_CFG, self.variant, None)
+        # the examples shipped with WallGo keep ONE WallSolverSettings object and
+        # change its fields in place between calls; half of the runs do the same
+        self.settingsObj: Any = None
         self.point: float | None = None
         self.valid = False
         self.collKind = "none"
@@ -218,6 +254,8 @@ class ManagerMachine(Machine):
             self.mgr.setPathToCollisionData(self._collisionDir("good"))
         self.armed: dict | None = None
         self.lastOutcome = "-"
+        self.lastQuestion: dict | None = None
+        self.prevOp = "-"
         self.solvesSinceConfig = 0
         self.faultSeen = False
 
@@ -250,26 +288,34 @@ class ManagerMachine(Machine):
         return mgr, model, ctl
 
     def _collisionDir(self, kind: str) -> pathlib.Path:
-        if kind not in self._dirs:
-            base = pathlib.Path(self.ctx.scratch()) / f"coll_{kind}"
-            names = self.classes[self.kind].particleNames
-            if kind == "good":
-                fixtures.writeRelaxationCollisions(base, names, COLLISION["N"],
-                                                   COLLISION["gamma"], COLLISION["mix"])
-            elif kind == "missing":
-                fixtures.writeRelaxationCollisions(
-                    base, names, COLLISION["N"], COLLISION["gamma"], COLLISION["mix"],
-                    only=[(names[0], names[0]), (names[0], names[1])])
-            elif kind == "mixed":
-                fixtures.writeRelaxationCollisions(base, names, COLLISION["N"],
-                                                   COLLISION["gamma"], COLLISION["mix"])
-                fixtures.writeRelaxationCollisions(
-                    base, names, COLLISION["N"] + 2, COLLISION["gamma"], COLLISION["mix"],
-                    only=[(names[1], names[1])])
-            else:
-                raise HarnessError(kind)
-            self._dirs[kind] = base
-        return self._dirs[kind]
+        """ONE directory per run whose content is rewritten in place (a generator
+        run that is repeated, interrupted or repaired); the manager is pointed at
+        it once.  Content per kind is deterministic, so references are shareable."""
+        base = pathlib.Path(self.ctx.scratch()) / "collisions_live"
+        if self._dirs.get("content") == kind:
+            return base
+        if base.exists():
+            for f in base.iterdir():
+                f.unlink()
+        names = self.classes[self.kind].particleNames
+        if kind in ("good", "mixed"):
+            fixtures.writeRelaxationCollisions(base, names, COLLISION["N"],
+                                               COLLISION["gamma"], COLLISION["mix"])
+        if kind == "good2":  # a different, equally valid generation
+            fixtures.writeRelaxationCollisions(base, names, COLLISION["N"] + 2,
+                                               2 * COLLISION["gamma"], COLLISION["mix"])
+        elif kind == "missing":
+            fixtures.writeRelaxationCollisions(
+                base, names, COLLISION["N"], COLLISION["gamma"], COLLISION["mix"],
+                only=[(names[0], names[0]), (names[0], names[1])])
+        elif kind == "mixed":
+            fixtures.writeRelaxationCollisions(
+                base, names, COLLISION["N"] + 2, COLLISION["gamma"], COLLISION["mix"],
+                only=[(names[1], names[1])])
+        elif kind not in ("good", "good2"):
+            raise HarnessError(kind)
+        self._dirs["content"] = kind
+        return base
 
     def close(self) -> None:
         _TRACE["active"] = None
@@ -290,6 +336,13 @@ class ManagerMachine(Machine):
         op = "solve" if last else rng.choice(ops)
         if not self.valid and op in ("lte", "solve", "detonation", "hydro", "thermo"):
             op = "setup"
+        # perturb-then-ask-again: after a step that could leave something behind,
+        # most of the time repeat the last question put to this manager
+        if self.valid and self.lastQuestion is not None and self.prevOp in (
+                "config", "colldir", "hydro", "thermo", "new_model", "arm", "lte",
+                "detonation", "solve") and rng.random() < 0.6:
+            self.ctx.probes["question_repeated_after_perturbation"] += 1
+            return dict(self.lastQuestion)
         if op == "setup":
             if cfg["bad"] and rng.random() < 0.15 and not last:
                 return {"op": "setup", "point": rng.choice(cfg["bad"])}
@@ -311,7 +364,9 @@ class ManagerMachine(Machine):
         if op == "config":
             return {"op": "config", "variant": rng.choice(cfg["variants"])}
         if op == "colldir":
-            return {"op": "colldir", "kind": rng.choice(["good", "good", "missing", "mixed"])}
+            return {"op": "colldir", "kind": rng.choice(["good", "good", "good2", "missing",
+                                                         "mixed"]),
+                    "repoint": rng.random() < 0.3}
         if op == "new_model":
             return {"op": "new_model"}
         if op == "arm":
@@ -341,14 +396,24 @@ class ManagerMachine(Machine):
             W.VeffDerivativeSettings(temperatureVariationScale=tscale,
                                      fieldValueVariationScale=pts["fscale"]))
 
-    def _settings(self, name: str, offEq: bool) -> Any:
+    def _settings(self, name: str, offEq: bool, history: bool = False) -> Any:
         table = BAG_SETTINGS if self.kind == "bag" else SETTINGS
         s = table[name]
+        if history and self.cfg.get("reuseSettingsObject"):
+            if self.settingsObj is None:
+                self.settingsObj = self.WallGo.WallSolverSettings()
+            else:
+                self.ctx.probes["settings_object_mutated_in_place"] += 1
+            self.settingsObj.bIncludeOffEquilibrium = offEq
+            self.settingsObj.meanFreePathScale = s["mfp"]
+            self.settingsObj.wallThicknessGuess = s["thickness"]
+            return self.settingsObj
         return self.WallGo.WallSolverSettings(bIncludeOffEquilibrium=offEq,
                                               meanFreePathScale=s["mfp"],
                                               wallThicknessGuess=s["thickness"])
 
-    def _runOp(self, mgr: Any, ctl: Any, op: str, step: dict, armAt: tuple | None) -> dict:
+    def _runOp(self, mgr: Any, ctl: Any, op: str, step: dict, armAt: tuple | None,
+               history: bool = False) -> dict:
         """run one checked operation on a manager; returns the observation record"""
         trace: list = []
         ctl.calls = 0
@@ -366,9 +431,11 @@ class ManagerMachine(Machine):
                     elif op == "lte":
                         value = mgr.wallSpeedLTE()
                     elif op == "solve":
-                        value = mgr.solveWall(self._settings(step["settings"], step["offEq"]))
+                        value = mgr.solveWall(self._settings(step["settings"], step["offEq"],
+                                                             history))
                     elif op == "detonation":
-                        value = mgr.solveWallDetonation(self._settings(step["settings"], False))
+                        value = mgr.solveWallDetonation(self._settings(step["settings"], False,
+                                                                       history))
                     else:
                         raise HarnessError(op)
         except HarnessError:
@@ -418,7 +485,18 @@ class ManagerMachine(Machine):
         self.ctx.probes["reference_computed"] += 1
         rec = self._referenceUncached(op, step)
         _REF_CACHE[key] = rec
+        _REF_NEW[key] = rec
         return rec
+
+    # runs are executed in forked children; references computed there travel
+    # back to the worker process so that later runs inherit them
+    @staticmethod
+    def exportShared() -> dict:
+        return dict(_REF_NEW)
+
+    @staticmethod
+    def importShared(shared: dict) -> None:
+        _REF_CACHE.update(shared)
 
     def _referenceUncached(self, op: str, step: dict) -> dict:
         mgr, _, ctl = self._freshManager(SETUP_CFG, self.variant, self.collKind)
@@ -442,7 +520,8 @@ class ManagerMachine(Machine):
         """window and companions from the manager's own hydrodynamics, and the
         profile residuals (3b) for the last traced evaluation"""
         h = mgr.hydrodynamics
-        facts: dict = {"vJ": float(h.vJ), "vMin": float(h.vMin)}
+        facts: dict = {"vJ": float(h.vJ), "vMin": float(h.vMin),
+                       "Tn": float(mgr.phasesAtTn.temperature)}
         with warnings.catch_warnings():
             warnings.simplefilter("ignore")
             with np.errstate(all="ignore"):
@@ -468,10 +547,11 @@ class ManagerMachine(Machine):
             return None
         if not self._solveCfg(self.variant)["conserve"]:
             return None
-        last = rec["trace"][-1] if rec["trace"] else None
-        if last is None or "eom" not in last or not last["okT"]:
-            return None
         vw = float(obs["wallVelocity"])
+        atVw = [t for t in rec["trace"] if t.get("vw") == vw and "eom" in t]
+        last = atVw[-1] if atVw else None
+        if last is None or not last["okT"]:
+            return None
         h = mgr.hydrodynamics
         c1, c2, Tp, Tm, _ = h.findHydroBoundaries(vw)
         eom = last["eom"]
@@ -571,12 +651,31 @@ class ManagerMachine(Machine):
             else:
                 raise Violation("labelling", f"velocity-with-type-{st}",
                                 f"{who}: finite wallVelocity with solutionType {st}")
-            # 3 companions: results are those of the last evaluation, made at vw
-            last = trace[-1]
-            if last["vw"] != vw:
-                raise Violation("companions", "last-evaluation-not-at-reported-velocity",
-                                f"{who}: reported velocity {vw!r} but the last pressure "
-                                f"evaluation was made at {last['vw']!r}")
+            # 3 companions: results are those of the evaluation made AT vw (the
+            # most recent one; it need not be the last call of the solve)
+            atVw = [t for t in trace if t["vw"] == vw]
+            if not atVw:
+                raise Violation("companions", "reported-velocity-never-evaluated",
+                                f"{who}: reported velocity {vw!r} but no pressure evaluation "
+                                f"was made at it (evaluated: {[t['vw'] for t in trace][-5:]})")
+            last = atVw[-1]
+            # 5 labelling: success means the solution at vw converged
+            if not (last["okP"] and last["okT"]):
+                raise Violation(
+                    "labelling", "success-but-evaluation-at-reported-velocity-not-converged",
+                    f"{who}: success reported for vw={vw!r}, but the pressure evaluation at that "
+                    f"velocity ended with successWallPressure={last['okP']}, "
+                    f"successTemperatureProfile={last['okT']}")
+            Tn = facts.get("Tn") if facts is not None else None
+            if Tn:
+                lo, hi = cfg["thicknessBounds"]
+                w = np.asarray(r["wallWidths"], dtype=float) * Tn
+                if np.any(np.abs(w - lo) <= 1e-12 * lo) or np.any(np.abs(w - hi) <= 1e-12 * hi):
+                    raise Violation(
+                        "labelling", "success-with-wall-width-on-its-bound",
+                        f"{who}: success reported although a wall width ({w.tolist()} / Tn) "
+                        f"sits on the configured bound {cfg['thicknessBounds']}: not a "
+                        "converged solution")
             for name, key in (("wallWidths", "widths"), ("wallOffsets", "offsets"),
                               ("temperatureProfile", "Tprofile"),
                               ("velocityProfile", "vprofile")):
@@ -633,7 +732,13 @@ class ManagerMachine(Machine):
         handler = getattr(self, "_op_" + op, None)
         if handler is None:
             raise HarnessError(f"unknown op {op}")
-        return handler(step)
+        try:
+            return handler(step)
+        finally:
+            self.prevOp = op
+            if op == "solve":
+                self.lastQuestion = {"op": "solve", "settings": step["settings"],
+                                     "offEq": bool(step["offEq"])}
 
     def _op_arm(self, step: dict) -> Any:
         self.armed = {"kind": step["kind"], "frac": float(step["frac"])}
@@ -652,8 +757,14 @@ class ManagerMachine(Machine):
     def _op_colldir(self, step: dict) -> Any:
         if self.kind != "yukawa":
             raise Skip()
+        if step["kind"] not in ("good", "good2", "missing", "mixed"):
+            raise Skip()
+        path = self._collisionDir(step["kind"])  # rewrites the directory in place
+        if self.collKind == "none" or step.get("repoint"):
+            self.mgr.setPathToCollisionData(path)
+        else:
+            self.ctx.probes["collision_dir_changed_in_place"] += 1
         self.collKind = step["kind"]
-        self.mgr.setPathToCollisionData(self._collisionDir(self.collKind))
         return ["colldir", self.collKind]
 
     def _op_new_model(self, step: dict) -> Any:
@@ -733,7 +844,7 @@ class ManagerMachine(Machine):
         if point not in pts["good"] and point not in pts["bad"]:
             raise Skip()
         armAt = self._takeArm("setup", step)
-        rec = self._runOp(self.mgr, self.ctl, "setup", step, armAt)
+        rec = self._runOp(self.mgr, self.ctl, "setup", step, armAt, history=True)
         faulted = armAt is not None and rec["fired"]
         if faulted:
             self.ctx.faultFired["callback_" + ("raises" if armAt[1] == "raise" else "nan")] += 1
@@ -781,7 +892,7 @@ class ManagerMachine(Machine):
         args = self._args(op, step)
         ref = self._reference(op, step, args)
         armAt = self._takeArm(op, step)
-        rec = self._runOp(self.mgr, self.ctl, op, step, armAt)
+        rec = self._runOp(self.mgr, self.ctl, op, step, armAt, history=True)
         if op == "solve":
             self.solvesSinceConfig += 1
             if step["offEq"]:
